@@ -87,6 +87,16 @@ def run(tier, seed):
           {"op": "checkpoint", "t": 0, "to_msg": 0, "summary": "manual base"}, {"op": "message", "t": 0}, {"op": "message", "t": 0}]]
     # many distinct words with equal counts: whatever the summary says about them must not depend on map order
     bases += [[{"op": "ensure_default"}] + [{"op": "message", "t": 0, "words": w}] * n_ for (w, n_) in ((13, 2), (14, 4), (26, 3), (40, 2))]
+    # threads whose messages were answered by runs (run frames lie between the messages; "messages alone" decide the cuts),
+    # ending with a message and ending with a run end
+    def answered(k, last_open):
+        ops_ = [{"op": "ensure_default"}]
+        for i in range(k):
+            ops_ += [{"op": "message", "t": 0}]
+            if i < k - 1 or not last_open:
+                ops_ += [{"op": "run_spawned", "t": 0, "m": i, "s": i}, {"op": "run_ended", "t": 0, "m": i, "s": i}]
+        return ops_
+    bases += [answered(4, True), answered(5, False), answered(3, True)]
     n = 0
     for b in bases:
         for stride in (1, 2):
@@ -126,6 +136,8 @@ def run(tier, seed):
             for (file, kind) in faults:
                 fhist.append({"id": f"f{fb}-{file}-{kind}", "ops": done + [{"op": "fault", "t": 0, "file": file, "kind": kind}, {"op": "restart"}] + probe,
                               "_ref": f"f{fb}-ref", "_fault": (file, kind)})
+            # every cache file lost at once: everything is rebuilt from the truth log
+            fhist.append({"id": f"f{fb}-all-lost", "ops": done + [{"op": "drop_caches"}, {"op": "restart"}] + probe, "_ref": f"f{fb}-ref", "_fault": ("whole cache directory", "loss")})
             fb += 1
     fres = {r["id"]: r for r in run_harness("hist", [{k: h[k] for k in h if not k.startswith("_")} for h in fhist], wd, "cfault", shards=8, timeout=900)}
 
